@@ -23,18 +23,19 @@ def observe(r):
 def run_c01(ck):
     quick = ck.tier == "quick"
     rng = random.Random(ck.seed)
-    n = 500 if quick else 20000
+    n = 1200 if quick else 20000
     progs = []
     for i in range(n):
         isa = genasm.gen_isa(rng)
         for _ in range(rng.choice([1, 2])):
             progs.append(genasm.gen_program(rng, isa))
     jobs = [{"mode": "asm", "files": {"main.asm": genasm.render_program(P)}, "roots": ["main.asm"],
-             "want": {"messages": False, "spans": False, "events": False}} for P in progs]
+             "want": {"messages": False, "spans": False}} for P in progs]
     results = common.run_jobs(jobs, ck.wd + "/jobs")
     ck.evaluations += len(jobs)
     events = []
-    stats = {"accepted": 0, "rejected": 0}
+    stats = {"accepted": 0, "rejected": 0, "certified": 0}
+    ncase = len(progs)
     for i, (P, r) in enumerate(zip(progs, results)):
         if r.get("crash") or r.get("panic"):
             ck.violation("panic:%s@%s" % (str(r.get("panic") or r.get("crash"))[:60], r.get("panic_at", "")),
@@ -43,13 +44,23 @@ def run_c01(ck):
         o = observe(r)
         stats["accepted" if o["ok"] else "rejected"] += 1
         events.append({"ev": "asm", "case": i, "prog": P, "obs": [o]})
+        if o["ok"]:
+            # every accepted program's claimed final state is certified as well (Asm.tla Certificate):
+            # this also judges the programs outside the size-static fragment
+            claim = claim_of(P, r)
+            if claim is None:
+                ck.violation("glue:cannot-align-events", {"source": jobs[i]["files"]["main.asm"][:500]}, {"job": jobs[i]})
+            else:
+                events.append({"ev": "cert", "case": ncase + i, "prog": P, "claim": claim})
+                stats["certified"] += 1
         if i % 150 == 0:
             ck.sample({"source": jobs[i]["files"]["main.asm"], "accepted": o["ok"], "bits": r.get("bits", "")[:64]}, limit=4)
     ck.extra["observed"] = stats
     failed = tv.judge(ck, "TraceAsm", "TraceAsm.cfg", events, ck.wd, tag="asm", shard=60, timeout=1800, jobs=6)
     ck.traces += len(events)
-    for case in sorted(failed):
-        for tag in sorted(set(failed[case])):
+    for case0 in sorted(failed):
+        case = case0 % ncase
+        for tag in sorted(set(failed[case0])):
             ck.violation("TraceAsm:" + tag, {"verdict": tag, "source": jobs[case]["files"]["main.asm"],
                                              "observed_ok": not results[case].get("error"),
                                              "bits": results[case].get("bits", "")[:200]},
@@ -133,6 +144,11 @@ def claim_of(P, r):
     pos, sizes, bits = [], [], []
     k = 0
     for it in P["items"]:
+        if it["k"] in ("bankdef", "bank"):
+            pos.append(-1)           # no resolver node: the position is not claimed
+            sizes.append([0])
+            bits.append([[]])
+            continue
         need = len(it["es"]) if it["k"] == "data" else 1
         if k + need > len(nodes):
             return None
@@ -231,11 +247,12 @@ def run_c15(ck):
     n = 2500 if quick else 60000
     progs = [genasm.gen_symbol_program(rng) for _ in range(n)]
     jobs = [{"mode": "asm", "files": {"main.asm": genasm.render_program(P)}, "roots": ["main.asm"],
-             "want": {"messages": False, "spans": False, "events": False}} for P in progs]
+             "want": {"messages": False, "spans": False}} for P in progs]
     results = common.run_jobs(jobs, ck.wd + "/jobs")
     ck.evaluations += len(jobs)
     events = []
-    stats = {"accepted": 0, "rejected": 0}
+    stats = {"accepted": 0, "rejected": 0, "certified": 0}
+    ncase = len(progs)
     for i, (P, r) in enumerate(zip(progs, results)):
         if r.get("crash") or r.get("panic"):
             ck.violation("panic:%s@%s" % (str(r.get("panic") or r.get("crash"))[:60], r.get("panic_at", "")),
@@ -244,6 +261,15 @@ def run_c15(ck):
         o = observe(r)
         stats["accepted" if o["ok"] else "rejected"] += 1
         events.append({"ev": "asm", "case": i, "prog": P, "obs": [o]})
+        if o["ok"]:
+            # every accepted program's claimed final state is certified as well (Asm.tla Certificate):
+            # this also judges the programs outside the size-static fragment
+            claim = claim_of(P, r)
+            if claim is None:
+                ck.violation("glue:cannot-align-events", {"source": jobs[i]["files"]["main.asm"][:500]}, {"job": jobs[i]})
+            else:
+                events.append({"ev": "cert", "case": ncase + i, "prog": P, "claim": claim})
+                stats["certified"] += 1
         if i % 500 == 0:
             ck.sample({"source": jobs[i]["files"]["main.asm"], "accepted": o["ok"], "symbols": o["syms"][:8]}, limit=4)
     ck.extra["observed"] = stats
